@@ -1,0 +1,25 @@
+//go:build verif
+
+// Contracts for contract-based deductive verification (govc, /verif).
+// This file contains comments only; it adds no code to the package.
+
+package leveldb
+
+//@ # ---- C18: a prefix search iterates over exactly the keys with that prefix ------------------------
+//@ # The range of keys with a given prefix is what goleveldb's util.BytesPrefix answers (start = the
+//@ # prefix, limit = the prefix with its last non-0xff byte incremented and the rest cut off, nil for a
+//@ # prefix of 0xff bytes only): assumed.  Search must hand exactly that range to the iterator.
+//@ spec func prefixRangeOf(r int, p Bytes) bool
+//@ extern func github.com/syndtr/goleveldb/leveldb/util.BytesPrefix
+//@   ensures result != nil && prefixRangeOf(ref(result), seq(prefix))
+//@   assigns nothing
+//@ extern func (*github.com/syndtr/goleveldb/leveldb.DB).NewIterator
+//@   ensures result != nil
+//@   assigns nothing
+//@ extern func (github.com/syndtr/goleveldb/leveldb/iterator.Iterator).Seek
+//@   assigns nothing
+//@ func (*LevelDB).Search
+//@   property C18
+//@   requires l != nil && l.db != nil
+//@   callassert DB.NewIterator prefix-search-iterates-the-prefix-range: query.MatchPrefix ==> $slice != nil && prefixRangeOf(ref($slice), seq(query.Prefix.Data))
+//@   callassert DB.NewIterator plain-search-is-unbounded: !query.MatchPrefix ==> $slice == nil
